@@ -1,6 +1,6 @@
 (* Proofs/HelpProofs.v — C16: the entries of `--help` (model instantiated with the regenerated facts) against the spec. *)
 From Coq Require Import Permutation Sorted.
-From SPV Require Import Base.Str Model.OptStr Model.Help Model.HelpSpec Gen.FactsConflicts Gen.FactsHelp Proofs.OptStrProofs.
+From SPV Require Import Base.Str Model.OptStr Model.Help Model.HelpSpec Gen.FactsConflicts Gen.FactsBool Gen.FactsHelp Proofs.OptStrProofs.
 
 (* the hash-seed oracle may enumerate a set of spellings in any order, but it enumerates exactly that set *)
 Definition valid (perm : list string -> list string) : Prop := forall l, Permutation (perm l) l.
@@ -59,18 +59,20 @@ Proof.
     [symmetry; apply sort_by_perm | exact N].
 Qed.
 
-Lemma entry_of_dest ah tok ad st b perm c D f : e_dest (entry_of ah tok ad st b perm c D f) = hdest f.
+Lemma entry_of_dest ah tok ad st ew np b perm c D f : e_dest (entry_of ah tok ad st ew np b perm c D f) = hdest f.
 Proof. unfold entry_of. destruct (ah _ _) as [h|]; [destruct (is_blank h)|]; reflexivity. Qed.
 
-Lemma entry_of_opts ah tok ad st b perm c D f :
-  e_opts (entry_of ah tok ad st b perm c D f) = ordered_opts b perm c (hf_fw f).
+Lemma entry_of_opts ah tok ad st ew np b perm c D f :
+  e_opts (entry_of ah tok ad st ew np b perm c D f) = shown_opts np b perm c f.
 Proof. unfold entry_of. destruct (ah _ _) as [h|]; [destruct (is_blank h)|]; reflexivity. Qed.
 
 (* ---------- complete: groups <-> wrappers, entries <-> exposed fields, in declaration order ---------- *)
 Definition shows (c : cfg) (f : hfield) (e : entry) : Prop :=
   e_dest e = dest (hf_fw f)
-  /\ (forall o, In o (e_opts e) <-> In o (option_strings c (hf_fw f)))
-  /\ NoDup (e_opts e).
+  /\ exists pos,
+       (forall o, In o pos <-> In o (option_strings c (hf_fw f)))
+       /\ NoDup pos
+       /\ e_opts e = (if hf_bool f then pos ++ negs_of DEFAULT_NEGATIVE_PREFIX pos else pos)%list.
 
 Lemma Forall2_map_r {A B} (P : A -> B -> Prop) (g : A -> B) l :
   (forall x, In x l -> P x (g x)) -> Forall2 P l (map g l).
@@ -88,9 +90,11 @@ Theorem help_complete perm c D F :
 Proof.
   intros V. unfold help_entries_gen, help_entries. apply Forall2_map_r. intros w _. split; [reflexivity|]. split; [reflexivity|].
   unfold group_of. cbn [g_entries]. rewrite filter_exposed. apply Forall2_map_r. intros f _.
-  unfold shows. rewrite entry_of_dest, entry_of_opts. split; [reflexivity|]. split.
+  unfold shows. rewrite entry_of_dest, entry_of_opts. split; [reflexivity|].
+  exists (ordered_opts option_order_preserved_gen perm c (hf_fw f)). split; [|split].
   - intros o. apply ordered_opts_In. exact V.
   - apply ordered_opts_NoDup. exact V.
+  - reflexivity.
 Qed.
 
 (* every entry (= every registered action) belongs to an exposed field of some destination *)
@@ -151,8 +155,8 @@ Qed.
 
 Definition W_autodoc : list hwrap :=
   [mkhw "A" ["a"] "A(x: int = 1, secret: str = 'hunter2')"
-        [mkhf (mkfw ["a"] "x" "" [] false) true None "" (Some "1");
-         mkhf (mkfw ["a"] "secret" "" [] false) true (Some false) "" (Some "hunter2")]].
+        [mkhf (mkfw ["a"] "x" "" [] false) true None "" (Some "1") false;
+         mkhf (mkfw ["a"] "secret" "" [] false) true (Some false) "" (Some "hunter2") false]].
 
 Theorem hidden_in_description_refuted :
   exists perm c D F, valid perm /\ hidden_not_mentioned F (help_entries_gen perm c D F) = false.
@@ -163,8 +167,15 @@ Qed.
 (* ---------- the default shown is the effective default; the help text is the field's ---------- *)
 Definition help_ok (f : hfield) : bool := String.eqb (hf_help f) "" || negb (is_blank (hf_help f)).
 
-Lemma effective_spec D f : effective D f = spec_effective D f.
-Proof. reflexivity. Qed.
+(* the regenerated test on an outside default lets EVERY non-None value win, falsy ones (0, 0.0, False, "", []) included *)
+Lemma ext_wins_gen_spec falsy : ext_wins_gen falsy = true.
+Proof. destruct falsy; reflexivity. Qed.
+
+Lemma effective_spec D f : effective ext_wins_gen D f = spec_effective D f.
+Proof.
+  unfold effective, spec_effective, hdest. destruct (dlookup (dest (hf_fw f)) D) as [v|]; [|reflexivity].
+  rewrite ext_wins_gen_spec. reflexivity.
+Qed.
 
 Theorem default_shown perm c D f v :
   help_ok f = true -> spec_effective D f = Some v -> e_default (entry_of_gen perm c D f) = Some v.
@@ -188,7 +199,7 @@ Qed.
 Theorem default_shown_refuted :
   exists c D f v, spec_effective D f = Some v /\ e_default (entry_of_gen (fun l => l) c D f) = None.
 Proof.
-  exists default_cfg_parser, [], (mkhf (mkfw ["a"] "x" "" [] false) true None " " (Some "3")), "3".
+  exists default_cfg_parser, [], (mkhf (mkfw ["a"] "x" "" [] false) true None " " (Some "3") false), "3".
   split; reflexivity.
 Qed.
 
@@ -205,7 +216,7 @@ Theorem help_text_shown perm c D f :
 Proof.
   intros Hh Ho. unfold entry_of_gen, entry_of, arg_help_gen. unfold help_ok in Hh.
   destruct (String.eqb (hf_help f) "") eqn:E; cbn [negb].
-  - apply String.eqb_eq in E. rewrite E. destruct (effective D f); reflexivity.
+  - apply String.eqb_eq in E. rewrite E. destruct (effective ext_wins_gen D f); reflexivity.
   - cbn [orb] in Hh. apply negb_true_iff in Hh. rewrite Hh. cbn [e_help strips_token_gen].
     unfold remove_sub. change (String.eqb TEMPORARY_TOKEN_gen "") with false. cbv iota.
     apply remove_sub_fuel_noocc. exact Ho.
@@ -214,12 +225,12 @@ Qed.
 (* ---------- reproducibility ---------- *)
 (* FULL statement: the whole `--help` run is a function of the definition (no dependence on the oracle).
    It follows from the regenerated fact "option_strings de-duplicates through an order-preserving container". *)
-Lemma entry_of_true ah tok ad st p1 p2 c D f :
-  entry_of ah tok ad st true p1 c D f = entry_of ah tok ad st true p2 c D f.
+Lemma entry_of_true ah tok ad st ew np p1 p2 c D f :
+  entry_of ah tok ad st ew np true p1 c D f = entry_of ah tok ad st ew np true p2 c D f.
 Proof. reflexivity. Qed.
 
-Lemma cli_help_of_true sk cd ah tok ad st p1 p2 hs ho c pre cfgf s :
-  cli_help_of sk cd ah tok ad st true p1 hs ho c pre cfgf s = cli_help_of sk cd ah tok ad st true p2 hs ho c pre cfgf s.
+Lemma cli_help_of_true sk cd ah tok ad st ew np p1 p2 hs ho c pre cfgf s :
+  cli_help_of sk cd ah tok ad st ew np true p1 hs ho c pre cfgf s = cli_help_of sk cd ah tok ad st ew np true p2 hs ho c pre cfgf s.
 Proof.
   unfold cli_help_of. destruct s as [F'|e]; reflexivity.
 Qed.
@@ -238,7 +249,7 @@ Proof.
   apply cli_help_of_true.
 Qed.
 
-Definition W_ab : list hwrap := [mkhw "K" ["a"] "Doc." [mkhf (mkfw ["a"] "bb" "" ["cc"] false) true None "" (Some "1")]].
+Definition W_ab : list hwrap := [mkhw "K" ["a"] "Doc." [mkhf (mkfw ["a"] "bb" "" ["cc"] false) true None "" (Some "1") false]].
 
 (* with a hash-ordered set, two valid oracles print two different entry lists for one field with two equal-length spellings *)
 Theorem deterministic_refuted :
@@ -255,9 +266,9 @@ Qed.
 (* worse: which option strings exist at all depends on the oracle, because the conflict resolver repairs the first
    clash it meets.  a.ab (alias cd), b.cd, c.ab: under one order `--cd` belongs to b.cd, under the other it does not exist *)
 Definition W_clash : list hwrap :=
-  [mkhw "A" ["a"] "Doc." [mkhf (mkfw ["a"] "ab" "" ["cd"] false) true None "" (Some "1")];
-   mkhw "B" ["b"] "Doc." [mkhf (mkfw ["b"] "cd" "" [] false) true None "" (Some "1")];
-   mkhw "C" ["c"] "Doc." [mkhf (mkfw ["c"] "ab" "" [] false) true None "" (Some "1")]].
+  [mkhw "A" ["a"] "Doc." [mkhf (mkfw ["a"] "ab" "" ["cd"] false) true None "" (Some "1") false];
+   mkhw "B" ["b"] "Doc." [mkhf (mkfw ["b"] "cd" "" [] false) true None "" (Some "1") false];
+   mkhw "C" ["c"] "Doc." [mkhf (mkfw ["c"] "ab" "" [] false) true None "" (Some "1") false]].
 
 Definition accepted_of (r : helprun) : list string :=
   match r_printed r with Some (_, gs) => map fst (registered gs) | None => [] end.
@@ -370,11 +381,11 @@ Proof.
     + apply nat_nodupb_NoDup. exact T.
 Qed.
 
-Lemma entry_of_tie_free ah tok ad st b p1 p2 c D f :
+Lemma entry_of_tie_free ah tok ad st ew np b p1 p2 c D f :
   valid p1 -> valid p2 -> tie_free c (hf_fw f) = true ->
-  entry_of ah tok ad st b p1 c D f = entry_of ah tok ad st b p2 c D f.
+  entry_of ah tok ad st ew np b p1 c D f = entry_of ah tok ad st ew np b p2 c D f.
 Proof.
-  intros V1 V2 T. unfold entry_of. rewrite (ordered_opts_tie_free b p1 p2 c (hf_fw f) V1 V2 T). reflexivity.
+  intros V1 V2 T. unfold entry_of, shown_opts. rewrite (ordered_opts_tie_free b p1 p2 c (hf_fw f) V1 V2 T). reflexivity.
 Qed.
 
 Theorem deterministic_partial p1 p2 c D F :
@@ -385,8 +396,8 @@ Proof.
   unfold forest_tie_free in T. rewrite forallb_forall in T. specialize (T w Hw). rewrite forallb_forall in T.
   unfold group_of. rewrite filter_exposed.
   assert (E : forall f, In f (filter spec_exposed (hw_fields w)) ->
-                        entry_of arg_help_gen TEMPORARY_TOKEN_gen adds_default_gen strips_token_gen option_order_preserved_gen p1 c D f
-                        = entry_of arg_help_gen TEMPORARY_TOKEN_gen adds_default_gen strips_token_gen option_order_preserved_gen p2 c D f).
+                        entry_of arg_help_gen TEMPORARY_TOKEN_gen adds_default_gen strips_token_gen ext_wins_gen DEFAULT_NEGATIVE_PREFIX option_order_preserved_gen p1 c D f
+                        = entry_of arg_help_gen TEMPORARY_TOKEN_gen adds_default_gen strips_token_gen ext_wins_gen DEFAULT_NEGATIVE_PREFIX option_order_preserved_gen p2 c D f).
   { intros f Hf. apply filter_In in Hf as [Hf1 Hf2]. specialize (T f Hf1). rewrite Hf2 in T. cbn [negb orb] in T.
     apply entry_of_tie_free; assumption. }
   rewrite (map_ext_in _ _ _ E). reflexivity.
@@ -427,7 +438,7 @@ Theorem print_help_inert_refuted :
   print_help_applies_config_gen = false ->
   exists perm c m pre cfgf F, valid perm /\ ~ api_agrees perm c m pre cfgf F.
 Proof.
-  intros H. exists (fun l => l), default_cfg_parser, CRAuto, [], [("a.bb", "7")], W_ab.
+  intros H. exists (fun l => l), default_cfg_parser, CRAuto, [], [("a.bb", mkdv "7" false)], W_ab.
   split; [exact valid_id|]. intros [A _]. revert A.
   unfold parse_defaults_gen, parse_defaults_of_gen, parse_defaults_of, api_defaults. rewrite H.
   vm_compute. intros E. discriminate E.
@@ -445,7 +456,7 @@ Qed.
 
 (* the forest used by the non-vacuity example of Properties/C16.v *)
 Definition demo_forest : list hwrap :=
-  [mkhw "K1" ["a"] "Doc of K1." [mkhf (mkfw ["a"] "bb" "" ["cc"] false) true (Some true) "the value" (Some "1");
-                    mkhf (mkfw ["a"] "hid" "" [] false) true (Some false) "secret" (Some "9");
-                    mkhf (mkfw ["a"] "x" "" [] false) true None "" None]].
+  [mkhw "K1" ["a"] "Doc of K1." [mkhf (mkfw ["a"] "bb" "" ["cc"] false) true (Some true) "the value" (Some "1") false;
+                    mkhf (mkfw ["a"] "hid" "" [] false) true (Some false) "secret" (Some "9") false;
+                    mkhf (mkfw ["a"] "x" "" [] false) true None "" None false]].
 
